@@ -1,1 +1,782 @@
-fn main() {}
+//! hsim - seeded direct history drivers: real driver code (through
+//! `scylla::verif::*`, compiled with `--cfg scylla_verif`) against small
+//! executable reference models. Implements /verif/sim/ENGINE_CONTRACT.md.
+//!
+//!   hsim run --property C15d|C13d|C02d|C19p --tier quick|thorough --seed N --jobs N --out FILE
+//!   hsim replay FILE [--trace]
+//!
+//! Process model: the single-threaded parent forks `--jobs` single-threaded
+//! workers; worker k runs case indices k, k+jobs, ... Every case is a pure
+//! function of (part, tier, case seed) - the case seed is derived from
+//! (--seed, part, case index), never from the worker - so a batch gives the
+//! same counts for any `--jobs`. C13d cases additionally run in a forked
+//! child each (see c13.rs for why).
+
+mod c02;
+mod c13;
+mod c15;
+mod c19;
+mod case;
+mod rng;
+mod tape;
+
+use case::{CaseOut, Counts, Ctx, Tier};
+use serde_json::{Value, json};
+use std::any::Any;
+use std::cell::RefCell;
+use std::collections::BTreeMap;
+use std::io::{Read, Write};
+use std::os::fd::{FromRawFd, RawFd};
+use std::panic::{AssertUnwindSafe, catch_unwind};
+use std::time::{Duration, Instant};
+use tape::Tape;
+
+#[derive(Clone, Copy, Debug, PartialEq, Eq)]
+enum Part {
+    C15d,
+    C13d,
+    C02d,
+    C19p,
+}
+
+impl Part {
+    fn parse(s: &str) -> Option<Part> {
+        match s {
+            "C15d" => Some(Part::C15d),
+            "C13d" => Some(Part::C13d),
+            "C02d" => Some(Part::C02d),
+            "C19p" => Some(Part::C19p),
+            _ => None,
+        }
+    }
+    fn name(&self) -> &'static str {
+        match self {
+            Part::C15d => "C15d",
+            Part::C13d => "C13d",
+            Part::C02d => "C02d",
+            Part::C19p => "C19p",
+        }
+    }
+    fn property(&self) -> &'static str {
+        match self {
+            Part::C15d => "C15",
+            Part::C13d => "C13",
+            Part::C02d => "C02",
+            Part::C19p => "C19",
+        }
+    }
+    fn prefix(&self) -> &'static str {
+        match self {
+            Part::C15d => "c15",
+            Part::C13d => "c13",
+            Part::C02d => "c02",
+            Part::C19p => "c19",
+        }
+    }
+    fn forked_cases(&self) -> bool {
+        matches!(self, Part::C13d)
+    }
+    fn rule(&self) -> &'static str {
+        match self {
+            Part::C15d => {
+                "distinct = distinct hashes of (configuration, every insert with range and replicas, every maintenance decision); non-trivial = at least 2 accepted inserts and (an insert that overlapped an existing tablet or a maintenance step)"
+            }
+            Part::C13d => {
+                "distinct = distinct hashes of (interval, max count, script of (delay, outcome) per execution); non-trivial = at least 2 executions started, or the result is not the plain success of the first execution"
+            }
+            Part::C02d => {
+                "distinct = distinct hashes of the operation sequence with its seeded picks; non-trivial = at least 4 operations including at least 2 allocations"
+            }
+            Part::C19p => {
+                "distinct = distinct hashes of the step sequence (producer steps, consumer steps, injection sites); non-trivial = at least one id merged in and at least one receive attempt"
+            }
+        }
+    }
+    /// (requested cases, wall budget of the batch)
+    fn budget(&self, tier: Tier) -> (u64, Duration) {
+        let (q, t) = match self {
+            Part::C15d => (400_000, 6_000_000),
+            Part::C13d => (400_000, 6_000_000),
+            Part::C02d => (400_000, 6_000_000),
+            Part::C19p => (1_000_000, 20_000_000),
+        };
+        match tier {
+            Tier::Quick => (q, Duration::from_secs(40)),
+            Tier::Thorough => (t, Duration::from_secs(540)),
+        }
+    }
+}
+
+/// Cap on the number of history hashes kept for `distinct_nontrivial`.
+const DISTINCT_CAP: usize = 24_000_000;
+
+thread_local! {
+    static LAST_PANIC_AT: RefCell<String> = const { RefCell::new(String::new()) };
+}
+
+pub fn panic_message(p: &Box<dyn Any + Send>) -> String {
+    let s = if let Some(s) = p.downcast_ref::<&'static str>() {
+        s.to_string()
+    } else if let Some(s) = p.downcast_ref::<String>() {
+        s.clone()
+    } else {
+        "panic with a non-string payload".to_string()
+    };
+    let at = LAST_PANIC_AT.with(|c| c.borrow().clone());
+    if at.is_empty() { s } else { format!("{s} at {at}") }
+}
+
+fn install_panic_hook() {
+    std::panic::set_hook(Box::new(|info| {
+        let at = info
+            .location()
+            .map(|l| {
+                let f = l.file();
+                let short = f.rsplit("/scylla/src/").next().unwrap_or(f);
+                format!("{}:{}", short, l.line())
+            })
+            .unwrap_or_default();
+        LAST_PANIC_AT.with(|c| *c.borrow_mut() = at);
+    }));
+}
+
+enum TapeSrc {
+    Seed(u64),
+    Replay(Vec<u64>),
+}
+
+impl TapeSrc {
+    fn make(&self) -> Tape {
+        match self {
+            TapeSrc::Seed(s) => Tape::generate(*s),
+            TapeSrc::Replay(v) => Tape::replay(v.clone()),
+        }
+    }
+}
+
+fn run_case_inproc(part: Part, src: &TapeSrc, tier: Tier, trace: bool, want_desc: bool) -> CaseOut {
+    let mut ctx = Ctx::new(src.make(), tier, trace, want_desc);
+    let r = catch_unwind(AssertUnwindSafe(|| match part {
+        Part::C15d => c15::run(&mut ctx),
+        Part::C13d => c13::run(&mut ctx),
+        Part::C02d => c02::run(&mut ctx),
+        Part::C19p => c19::run(&mut ctx),
+    }));
+    if let Err(p) = r {
+        if ctx.out.status == "ok" {
+            ctx.out.status = "crash".to_string();
+            ctx.out.oracle = format!("{}.panic", part.prefix());
+            ctx.out.msg = format!("the code under test panicked: {}", panic_message(&p));
+            if trace {
+                let l = format!("!! {} {}", ctx.out.oracle, ctx.out.msg);
+                ctx.out.trace.push(l);
+            }
+        }
+    }
+    ctx.finish()
+}
+
+struct HarnessError(String);
+
+fn read_all(fd: RawFd) -> Vec<u8> {
+    let mut f = unsafe { std::fs::File::from_raw_fd(fd) };
+    let mut buf = Vec::new();
+    let _ = f.read_to_end(&mut buf);
+    buf
+}
+
+fn write_all_fd(fd: RawFd, data: &[u8]) {
+    let mut f = unsafe { std::fs::File::from_raw_fd(fd) };
+    let _ = f.write_all(data);
+    let _ = f.flush();
+    // closed on drop
+}
+
+fn run_case_forked(
+    part: Part,
+    src: &TapeSrc,
+    tier: Tier,
+    trace: bool,
+    want_desc: bool,
+) -> Result<CaseOut, HarnessError> {
+    let mut fds = [0 as libc::c_int; 2];
+    if unsafe { libc::pipe(fds.as_mut_ptr()) } != 0 {
+        return Err(HarnessError("pipe failed".into()));
+    }
+    let pid = unsafe { libc::fork() };
+    if pid < 0 {
+        return Err(HarnessError("fork failed".into()));
+    }
+    if pid == 0 {
+        unsafe {
+            libc::close(fds[0]);
+            libc::alarm(30);
+        }
+        let out = run_case_inproc(part, src, tier, trace, want_desc);
+        let s = out.to_json().to_string();
+        write_all_fd(fds[1], s.as_bytes());
+        unsafe { libc::_exit(0) };
+    }
+    unsafe { libc::close(fds[1]) };
+    let data = read_all(fds[0]);
+    let mut status: libc::c_int = 0;
+    unsafe { libc::waitpid(pid, &mut status, 0) };
+    if libc::WIFEXITED(status) && libc::WEXITSTATUS(status) == 0 {
+        let v: Value = serde_json::from_slice(&data)
+            .map_err(|e| HarnessError(format!("case child wrote unparsable output: {e}")))?;
+        return CaseOut::from_json(&v)
+            .ok_or_else(|| HarnessError("case child wrote an incomplete result".into()));
+    }
+    let mut out = CaseOut {
+        fault_free: true,
+        ..Default::default()
+    };
+    if libc::WIFSIGNALED(status) && libc::WTERMSIG(status) == libc::SIGALRM {
+        out.status = "timeout".to_string();
+        out.oracle = format!("{}.wall_timeout", part.prefix());
+        out.msg = "the case did not finish within 30 s of wall time (busy loop?)".to_string();
+    } else {
+        out.status = "crash".to_string();
+        out.oracle = format!("{}.abort", part.prefix());
+        out.msg = format!("the case process died, wait status {status:#x}");
+    }
+    if let TapeSrc::Replay(v) = src {
+        out.tape = v.clone();
+    }
+    Ok(out)
+}
+
+fn exec_case(
+    part: Part,
+    src: &TapeSrc,
+    tier: Tier,
+    trace: bool,
+    want_desc: bool,
+) -> Result<CaseOut, HarnessError> {
+    if part.forked_cases() {
+        let mut out = run_case_forked(part, src, tier, trace, want_desc)?;
+        if out.tape.is_empty() {
+            // A dead child could not report its tape: regenerate it is not
+            // possible either, so keep the seed's tape empty (replay uses it).
+            if let TapeSrc::Seed(_) = src {
+                out.tape = Vec::new();
+            }
+        }
+        Ok(out)
+    } else {
+        Ok(run_case_inproc(part, src, tier, trace, want_desc))
+    }
+}
+
+fn case_seed(base_seed: u64, part: Part, idx: u64) -> u64 {
+    rng::mix(&[base_seed, rng::tag(part.name()), idx])
+}
+
+// ---------------------------------------------------------------------------
+// Aggregation
+// ---------------------------------------------------------------------------
+
+#[derive(Default)]
+struct ClassAgg {
+    count: u64,
+    /// The lowest-index example: (run_index, status, oracle, msg, tape).
+    first: Option<(u64, String, String, String, Vec<u64>)>,
+}
+
+#[derive(Default)]
+struct Agg {
+    runs: u64,
+    by_status: Counts,
+    virt_ns: u128,
+    faults: Counts,
+    probes: Counts,
+    counters: Counts,
+    nontrivial: u64,
+    fault_free_runs: u64,
+    samples: Vec<(u64, Value)>,
+    budget_exhausted: bool,
+    hashes: Vec<u64>,
+    classes: BTreeMap<String, ClassAgg>,
+    harness_errors: Vec<String>,
+}
+
+fn add_counts(dst: &mut Counts, src: &Counts) {
+    for (k, v) in src {
+        *dst.entry(k.clone()).or_insert(0) += *v;
+    }
+}
+
+impl Agg {
+    fn add_case(&mut self, idx: u64, out: CaseOut) {
+        self.runs += 1;
+        *self.by_status.entry(out.status.clone()).or_insert(0) += 1;
+        self.virt_ns += out.virt_ns;
+        add_counts(&mut self.faults, &out.faults);
+        add_counts(&mut self.probes, &out.probes);
+        add_counts(&mut self.counters, &out.counters);
+        if out.nontrivial {
+            self.nontrivial += 1;
+            if self.hashes.len() < DISTINCT_CAP {
+                self.hashes.push(out.hash);
+            }
+        }
+        if out.fault_free {
+            self.fault_free_runs += 1;
+        }
+        if let Some(d) = out.desc.clone() {
+            self.samples.push((idx, d));
+        }
+        if out.status != "ok" {
+            let c = self.classes.entry(out.class()).or_default();
+            c.count += 1;
+            let replace = match &c.first {
+                None => true,
+                Some((i, ..)) => idx < *i,
+            };
+            if replace {
+                c.first = Some((idx, out.status, out.oracle, out.msg, out.tape));
+            }
+        }
+    }
+
+    fn to_json(&self) -> Value {
+        let classes: BTreeMap<String, Value> = self
+            .classes
+            .iter()
+            .map(|(k, c)| {
+                let f = c.first.as_ref().unwrap();
+                (
+                    k.clone(),
+                    json!({"count": c.count, "run_index": f.0, "status": f.1, "oracle": f.2, "msg": f.3, "tape": f.4}),
+                )
+            })
+            .collect();
+        json!({
+            "runs": self.runs, "by_status": self.by_status, "virt_ns": self.virt_ns.to_string(),
+            "faults": self.faults, "probes": self.probes, "counters": self.counters,
+            "nontrivial": self.nontrivial, "fault_free_runs": self.fault_free_runs,
+            "samples": self.samples.iter().map(|(i, d)| json!({"run_index": i, "case": d})).collect::<Vec<_>>(),
+            "budget_exhausted": self.budget_exhausted,
+            "classes": classes, "harness_errors": self.harness_errors,
+        })
+    }
+
+    fn merge_json(&mut self, v: &Value) -> Option<()> {
+        fn counts(v: &Value) -> Counts {
+            v.as_object()
+                .map(|o| {
+                    o.iter()
+                        .map(|(k, x)| (k.clone(), x.as_u64().unwrap_or(0)))
+                        .collect()
+                })
+                .unwrap_or_default()
+        }
+        self.runs += v.get("runs")?.as_u64()?;
+        add_counts(&mut self.by_status, &counts(v.get("by_status")?));
+        self.virt_ns += v.get("virt_ns")?.as_str()?.parse::<u128>().ok()?;
+        add_counts(&mut self.faults, &counts(v.get("faults")?));
+        add_counts(&mut self.probes, &counts(v.get("probes")?));
+        add_counts(&mut self.counters, &counts(v.get("counters")?));
+        self.nontrivial += v.get("nontrivial")?.as_u64()?;
+        self.fault_free_runs += v.get("fault_free_runs")?.as_u64()?;
+        for s in v.get("samples")?.as_array()? {
+            self.samples
+                .push((s.get("run_index")?.as_u64()?, s.get("case")?.clone()));
+        }
+        self.budget_exhausted |= v.get("budget_exhausted")?.as_bool()?;
+        for (k, c) in v.get("classes")?.as_object()? {
+            let e = self.classes.entry(k.clone()).or_default();
+            e.count += c.get("count")?.as_u64()?;
+            let idx = c.get("run_index")?.as_u64()?;
+            let replace = match &e.first {
+                None => true,
+                Some((i, ..)) => idx < *i,
+            };
+            if replace {
+                e.first = Some((
+                    idx,
+                    c.get("status")?.as_str()?.to_string(),
+                    c.get("oracle")?.as_str()?.to_string(),
+                    c.get("msg")?.as_str()?.to_string(),
+                    c.get("tape")?
+                        .as_array()?
+                        .iter()
+                        .map(|x| x.as_u64().unwrap_or(0))
+                        .collect(),
+                ));
+            }
+        }
+        for h in v.get("harness_errors")?.as_array()? {
+            self.harness_errors.push(h.as_str()?.to_string());
+        }
+        Some(())
+    }
+}
+
+fn worker(part: Part, tier: Tier, base_seed: u64, runs: u64, jobs: u64, k: u64, budget: Duration) -> Agg {
+    let started = Instant::now();
+    let mut agg = Agg::default();
+    let mut idx = k;
+    let mut since_check = 0u32;
+    while idx < runs {
+        since_check += 1;
+        if since_check >= 64 {
+            since_check = 0;
+            if started.elapsed() > budget {
+                agg.budget_exhausted = true;
+                break;
+            }
+        }
+        let src = TapeSrc::Seed(case_seed(base_seed, part, idx));
+        match exec_case(part, &src, tier, false, idx < 3) {
+            Ok(out) => agg.add_case(idx, out),
+            Err(HarnessError(e)) => {
+                if agg.harness_errors.len() < 8 {
+                    agg.harness_errors.push(format!("case {idx}: {e}"));
+                }
+            }
+        }
+        idx += jobs;
+    }
+    agg
+}
+
+fn verif_dir() -> String {
+    std::env::var("VERIF_DIR").unwrap_or_else(|_| "/verif".to_string())
+}
+
+fn cmd_run(args: &[String]) -> i32 {
+    let mut part = None;
+    let mut tier = Tier::Quick;
+    let mut seed = 1u64;
+    let mut jobs = 16u64;
+    let mut out_path = None;
+    let mut i = 0;
+    while i < args.len() {
+        let val = args.get(i + 1).cloned();
+        match args[i].as_str() {
+            "--property" => part = val.as_deref().and_then(Part::parse),
+            "--tier" => match val.as_deref().and_then(Tier::parse) {
+                Some(t) => tier = t,
+                None => {
+                    eprintln!("hsim: bad --tier");
+                    return 2;
+                }
+            },
+            "--seed" => match val.as_deref().and_then(|s| s.parse().ok()) {
+                Some(s) => seed = s,
+                None => {
+                    eprintln!("hsim: bad --seed");
+                    return 2;
+                }
+            },
+            "--jobs" => match val.as_deref().and_then(|s| s.parse().ok()) {
+                Some(j) if j >= 1 => jobs = j,
+                _ => {
+                    eprintln!("hsim: bad --jobs");
+                    return 2;
+                }
+            },
+            "--out" => out_path = val,
+            other => {
+                eprintln!("hsim: unknown argument {other}");
+                return 2;
+            }
+        }
+        i += 2;
+    }
+    let (Some(part), Some(out_path)) = (part, out_path) else {
+        eprintln!("hsim: --property C15d|C13d|C02d|C19p and --out are required");
+        return 2;
+    };
+    let t0 = Instant::now();
+    let (mut runs, budget) = part.budget(tier);
+    if let Some(r) = std::env::var("HSIM_RUNS").ok().and_then(|s| s.parse().ok()) {
+        runs = r;
+    }
+    jobs = jobs.min(runs.max(1));
+
+    // ---- fan out ----------------------------------------------------------
+    let mut children: Vec<(libc::pid_t, RawFd)> = Vec::new();
+    for k in 0..jobs {
+        let mut fds = [0 as libc::c_int; 2];
+        if unsafe { libc::pipe(fds.as_mut_ptr()) } != 0 {
+            eprintln!("hsim: pipe failed");
+            return 2;
+        }
+        let pid = unsafe { libc::fork() };
+        if pid < 0 {
+            eprintln!("hsim: fork failed");
+            return 2;
+        }
+        if pid == 0 {
+            unsafe { libc::close(fds[0]) };
+            for (_, fd) in &children {
+                unsafe { libc::close(*fd) };
+            }
+            let mut agg = worker(part, tier, seed, runs, jobs, k, budget);
+            let js = agg.to_json().to_string();
+            let mut data = Vec::with_capacity(js.len() + 16 + agg.hashes.len() * 8);
+            data.extend_from_slice(&(js.len() as u64).to_le_bytes());
+            data.extend_from_slice(js.as_bytes());
+            agg.hashes.sort_unstable();
+            agg.hashes.dedup();
+            data.extend_from_slice(&(agg.hashes.len() as u64).to_le_bytes());
+            for h in &agg.hashes {
+                data.extend_from_slice(&h.to_le_bytes());
+            }
+            write_all_fd(fds[1], &data);
+            unsafe { libc::_exit(0) };
+        }
+        unsafe { libc::close(fds[1]) };
+        children.push((pid, fds[0]));
+    }
+    let mut agg = Agg::default();
+    let mut harness_errors = 0u64;
+    for (k, (pid, fd)) in children.into_iter().enumerate() {
+        let data = read_all(fd);
+        let mut status: libc::c_int = 0;
+        unsafe { libc::waitpid(pid, &mut status, 0) };
+        let parsed = (|| -> Option<()> {
+            if data.len() < 8 {
+                return None;
+            }
+            let n = u64::from_le_bytes(data[0..8].try_into().ok()?) as usize;
+            let js = data.get(8..8 + n)?;
+            let v: Value = serde_json::from_slice(js).ok()?;
+            agg.merge_json(&v)?;
+            let rest = data.get(8 + n..)?;
+            let nh = u64::from_le_bytes(rest.get(0..8)?.try_into().ok()?) as usize;
+            let hs = rest.get(8..8 + nh * 8)?;
+            for c in hs.chunks_exact(8) {
+                agg.hashes.push(u64::from_le_bytes(c.try_into().ok()?));
+            }
+            Some(())
+        })();
+        if parsed.is_none() || !(libc::WIFEXITED(status) && libc::WEXITSTATUS(status) == 0) {
+            eprintln!("hsim: HARNESS-ERROR worker {k} died or wrote unusable output (wait status {status:#x})");
+            harness_errors += 1;
+        }
+    }
+    harness_errors += agg.harness_errors.len() as u64;
+    for e in &agg.harness_errors {
+        eprintln!("hsim: HARNESS-ERROR {e}");
+    }
+    agg.hashes.sort_unstable();
+    agg.hashes.dedup();
+    let distinct = agg.hashes.len();
+    agg.samples.sort_by_key(|(i, _)| *i);
+    agg.samples.truncate(3);
+    let batch_wall = t0.elapsed().as_secs_f64();
+
+    // ---- violations: minimise, write replay files, verify in a fresh process
+    let replay_dir = format!("{}/replays", verif_dir());
+    let _ = std::fs::create_dir_all(&replay_dir);
+    let mut violations = Vec::new();
+    let mut bad_runs = 0u64;
+    for (class, c) in &agg.classes {
+        bad_runs += c.count;
+        let (run_index, status, oracle, first_msg, tape) = c.first.clone().unwrap();
+        let min_started = Instant::now();
+        let mut errors = 0u64;
+        // A case child that died could not report its tape: replay from the seed.
+        let from_seed = tape.is_empty() && part.forked_cases() && status != "violation";
+        let (best, tries, reproduced_inproc) = if from_seed {
+            (Vec::new(), 0, true)
+        } else {
+            tape::minimise(tape.clone(), 600, |cand| {
+            if min_started.elapsed() > Duration::from_secs(20) {
+                return None;
+            }
+            match exec_case(part, &TapeSrc::Replay(cand.to_vec()), tier, false, false) {
+                Ok(out) if out.class() == *class => Some(out.tape),
+                Ok(_) => None,
+                Err(_) => {
+                    errors += 1;
+                    None
+                }
+            }
+            })
+        };
+        harness_errors += errors;
+        // Final traced run of the minimised tape.
+        let fin_src = if from_seed {
+            TapeSrc::Seed(case_seed(seed, part, run_index))
+        } else {
+            TapeSrc::Replay(best.clone())
+        };
+        let fin = exec_case(part, &fin_src, tier, true, true);
+        let (msg, history, desc) = match &fin {
+            Ok(o) if o.class() == *class => (o.msg.clone(), o.trace.clone(), o.desc.clone()),
+            _ => (first_msg.clone(), Vec::new(), None),
+        };
+        let path = format!(
+            "{}/{}-{}-{}-{}.json",
+            replay_dir,
+            part.property(),
+            part.name(),
+            seed,
+            run_index
+        );
+        let replay = json!({
+            "engine": "hsim", "property": part.property(), "part": part.name(),
+            "tier": tier.as_str(), "base_seed": seed, "run_index": run_index,
+            "case_seed": case_seed(seed, part, run_index).to_string(),
+            "expected": {"status": status, "oracle": oracle, "msg": msg},
+            "tape": best, "tape_from_seed": from_seed, "original_tape_len": tape.len(), "minimise_tries": tries,
+            "history": history, "case": desc,
+        });
+        let mut reproduced = false;
+        match std::fs::write(&path, serde_json::to_string_pretty(&replay).unwrap()) {
+            Ok(()) => {
+                if let Ok(exe) = std::env::current_exe() {
+                    if let Ok(st) = std::process::Command::new(exe)
+                        .arg("replay")
+                        .arg(&path)
+                        .stdout(std::process::Stdio::null())
+                        .status()
+                    {
+                        reproduced = st.code() == Some(1);
+                    }
+                }
+            }
+            Err(e) => {
+                eprintln!("hsim: HARNESS-ERROR cannot write {path}: {e}");
+                harness_errors += 1;
+            }
+        }
+        violations.push(json!({
+            "class": class, "oracle": oracle, "status": status,
+            "msg": msg, "first_msg": first_msg, "run_index": run_index,
+            "replay": path, "reproduced_on_replay": reproduced && reproduced_inproc,
+            "runs_in_class": c.count,
+        }));
+    }
+
+    let result = json!({
+        "property": part.name(), "tier": tier.as_str(), "seed": seed, "jobs": jobs,
+        "runs_requested": runs,
+        "agg": {
+            "runs": agg.runs, "by_status": agg.by_status, "virt_ns": agg.virt_ns.to_string(),
+            "faults": agg.faults, "probes": agg.probes, "counters": agg.counters,
+            "nontrivial": agg.nontrivial, "fault_free_runs": agg.fault_free_runs,
+            "samples": agg.samples.iter().map(|(i, d)| json!({"run_index": i, "case": d})).collect::<Vec<_>>(),
+            "budget_exhausted": agg.budget_exhausted,
+        },
+        "distinct_nontrivial": distinct,
+        "rule": format!("{} (hash set capped at {} entries per worker)", part.rule(), DISTINCT_CAP),
+        "violations": violations,
+        "bad_runs": bad_runs, "harness_errors": harness_errors,
+        "batch_wall_s": (batch_wall * 100.0).round() / 100.0,
+        "wall_s": (t0.elapsed().as_secs_f64() * 100.0).round() / 100.0,
+    });
+    if let Err(e) = std::fs::write(&out_path, serde_json::to_string_pretty(&result).unwrap()) {
+        eprintln!("hsim: HARNESS-ERROR cannot write {out_path}: {e}");
+        return 2;
+    }
+    eprintln!(
+        "hsim {} {}: {} cases, {} non-trivial ({} distinct), {} bad, {:.1}s{}",
+        part.name(),
+        tier.as_str(),
+        agg.runs,
+        agg.nontrivial,
+        distinct,
+        bad_runs,
+        t0.elapsed().as_secs_f64(),
+        if agg.budget_exhausted { " (budget exhausted)" } else { "" }
+    );
+    if harness_errors > 0 {
+        2
+    } else if bad_runs > 0 {
+        1
+    } else {
+        0
+    }
+}
+
+fn cmd_replay(args: &[String]) -> i32 {
+    let Some(path) = args.first() else {
+        eprintln!("hsim: replay <file> [--trace]");
+        return 2;
+    };
+    let trace = args.iter().any(|a| a == "--trace");
+    let v: Value = match std::fs::read(path).ok().and_then(|b| serde_json::from_slice(&b).ok()) {
+        Some(v) => v,
+        None => {
+            eprintln!("hsim: HARNESS-ERROR cannot read replay file {path}");
+            return 2;
+        }
+    };
+    let parsed = (|| {
+        let part = Part::parse(v.get("part")?.as_str()?)?;
+        let tier = Tier::parse(v.get("tier")?.as_str()?)?;
+        let tape: Vec<u64> = v
+            .get("tape")?
+            .as_array()?
+            .iter()
+            .map(|x| x.as_u64().unwrap_or(0))
+            .collect();
+        let exp = v.get("expected")?;
+        let src = if v.get("tape_from_seed").and_then(|x| x.as_bool()) == Some(true) {
+            TapeSrc::Seed(v.get("case_seed")?.as_str()?.parse().ok()?)
+        } else {
+            TapeSrc::Replay(tape)
+        };
+        Some((
+            part,
+            tier,
+            src,
+            exp.get("status")?.as_str()?.to_string(),
+            exp.get("oracle")?.as_str()?.to_string(),
+        ))
+    })();
+    let Some((part, tier, src, exp_status, exp_oracle)) = parsed else {
+        eprintln!("hsim: HARNESS-ERROR {path} is not an hsim replay file");
+        return 2;
+    };
+    let out = match exec_case(part, &src, tier, true, true) {
+        Ok(o) => o,
+        Err(HarnessError(e)) => {
+            eprintln!("hsim: HARNESS-ERROR {e}");
+            return 2;
+        }
+    };
+    if trace {
+        for l in &out.trace {
+            println!("{l}");
+        }
+    }
+    if out.status == exp_status && out.oracle == exp_oracle {
+        println!("  oracle={} msg={}", out.oracle, out.msg);
+        println!("VIOLATION property={} replay={}", part.property(), path);
+        1
+    } else if out.status == "ok" {
+        println!(
+            "replay of {path}: the recorded {exp_status} ({exp_oracle}) did not reproduce; the case ran clean"
+        );
+        0
+    } else {
+        println!(
+            "replay of {path}: the recorded {exp_status} ({exp_oracle}) did not reproduce; instead: {} {} {}",
+            out.status, out.oracle, out.msg
+        );
+        0
+    }
+}
+
+fn main() {
+    install_panic_hook();
+    scylla::verif::set_sched_point(Some(c19::sched_point_callback));
+    let args: Vec<String> = std::env::args().skip(1).collect();
+    let code = match args.first().map(|s| s.as_str()) {
+        Some("run") => cmd_run(&args[1..]),
+        Some("replay") => cmd_replay(&args[1..]),
+        _ => {
+            eprintln!(
+                "usage: hsim run --property C15d|C13d|C02d|C19p --tier quick|thorough --seed N --jobs N --out FILE\n       hsim replay FILE [--trace]"
+            );
+            2
+        }
+    };
+    std::process::exit(code);
+}
